@@ -95,7 +95,7 @@ func genCase(t *rapid.T) Case {
 	default:
 		c.Kind = "ctxreduce"
 	}
-	c.Ctx = gen.Context(t, 60)
+	c.Ctx = gen.Context(t, 400)
 	c.X = arith.ReduceOperand(t, c.Ctx)
 	if c.Kind == "decreduce" && gen.Pick(t, 8, "special") == 0 {
 		c.X = gen.Special(t, "xs")
